@@ -316,6 +316,16 @@ def jobs(prop, tier):
     if prop == 'C07':
         J += numtype_jobs('C07', 'C07_parse.cpp', T, {}, 'parse_', solver='cadical', timeout=900 if T else 250)
     if prop == 'C12':
+        CODEC = dict(link=['lib/ebus/datatype.cpp', 'lib/ebus/symbol.cpp', 'lib/ebus/result.cpp', 'lib/ebus/contrib/contrib.cpp', 'lib/ebus/contrib/tem.cpp'],
+                     models=['string', 'libc', 'sstream', 'posix', 'containers', 'libm'], skip_ctors=['datatype', 'contrib', 'tem'], solver=PORTFOLIO, timeout=1500 if T else 280)
+        for (tid, bits, fl, repl, hd, ht) in DATETYPES:
+            if not T and tid not in ('BDA', 'HDA3', 'BTI', 'VTM'):
+                continue
+            J.append(Job('C12', 'stream_' + tid, 'C12_stream.cpp', defs={'D_BITS': bits, 'D_FLAGS': fl, 'D_REPL': '%du' % repl, 'D_DATE': hd, 'D_TIME': ht}, unwind=14, unwindset={'vp_main': 26, 'strEv': 40, 'vs_copy': 40, 'vs_strlen': 40, 'vs_move': 40, 'put_field': 40}, shape='K',
+                         bounds='type %s: every byte pattern, text and JSON output, every formatting state other fields can leave behind (hex/dec, fixed, fill, precision 0..9)' % tid, **CODEC))
+        for (nm, bits, fl, hexf) in (('HEX2', 16, 0, 1), ('STR3', 24, 0, 0)) + ((('HEX4', 32, 0, 1), ('STR4R', 32, 4, 0)) if T else ()):
+            J.append(Job('C12', 'stream_' + nm, 'C12_stream.cpp', defs={'D_BITS': bits, 'D_FLAGS': fl, 'S_HEX': hexf}, unwind=14, unwindset={'vp_main': 26, 'strEv': 40, 'vs_copy': 40, 'vs_strlen': 40, 'vs_move': 40, 'put_field': 40}, shape='K',
+                         bounds='string type %s: every byte pattern (character strings over a small alphabet incl. terminator, control characters and quote), text and JSON output, every formatting state other fields can leave behind' % nm, **CODEC))
         J += numtype_jobs('C12', 'C07_parse.cpp', T, {'H_ERRNO': None}, 'errno_', names=(None if T else ['UCH', 'SIN', 'FLT', 'ULG']), solver='cadical', timeout=900 if T else 250)
     return J
 
@@ -402,9 +412,9 @@ META = {
    assumptions=COMMON_ASSUME + ['a conforming libc: strtol/strtoul/strtod return the mathematical value of the text or saturate with ERANGE'],
  ),
  'C12': dict(
-   level_text='Bounded model checking of one purity clause on the real code: the result of NumberDataType::parseInput for any input is the same whether errno was 0 or ERANGE before the call (i.e. after an arbitrary earlier operation in the thread), per numeric type, for every libc outcome.',
-   level_note='Only the call-history (errno) clause of the numeric encode path is decided. Outside: output-stream formatting state between fields, load-order independence of definitions, date/string types.',
-   outside_claim='stream formatting state carried between fields, derive() order independence, definition load order, non-numeric types',
+   level_text='Bounded model checking of two purity clauses on the real code. (1) Call history: the result of NumberDataType::parseInput for any input is the same whether errno was 0 or ERANGE before the call (i.e. after an arbitrary earlier operation in the thread), per numeric type, for every libc outcome. (2) Output history: the real DateTimeDataType / StringDataType::readSymbols, run on the same bytes into a fresh ostringstream and into one that carries every formatting state ebusd\'s own field formatting can leave behind (base hex or dec, fixed or not, fill 0 or blank, precision 0..9) plus text already present, return the same code and append the identical text, for every byte pattern, text and JSON output (2-run harness, one type per job).',
+   level_note='Stream state is the state of the ostringstream model (models/sstream.c: flags, width, fill, precision as the standard specifies; text rendered for real). The set of dirty states is derived from the manipulators used in datatype.cpp / data.cpp (hex, dec, fixed, setfill, setprecision; width is consumed by every insertion). Outside: numeric types on a used stream (NumberDataType::readSymbols resets all flags itself at entry -- read, not decided), load-order independence of definitions, derive() order, errno clause for non-numeric types.',
+   outside_claim='numeric types on a used stream, derive() order independence, definition load order, value lists, errno clause of date/string writes',
    assumptions=COMMON_ASSUME,
  ),
  'C18': dict(
